@@ -593,6 +593,20 @@ def generate_all(base_build_dir):
         groups["ppline"] = {"obligations": pl["obligations"], "failures": pl["failures"]}
     except Exception as e:  # noqa: BLE001
         groups["ppline"] = {"obligations": [], "failures": ["translate_ppline: %r" % (e,)]}
+    # lookup tables of the table-driven AES (src/bc/rijndael-alg-fst.c)
+    try:
+        import translate_aes
+        ar = translate_aes.generate()
+        groups["aes"] = {"obligations": ar["obligations"], "failures": ar["failures"]}
+    except Exception as e:  # noqa: BLE001
+        groups["aes"] = {"obligations": [], "failures": ["translate_aes: %r" % (e,)]}
+    # constants of the hash implementations (C14): K / H0 / IV / sigma tables, rotation amounts
+    try:
+        import translate_md
+        mr = translate_md.generate()
+        groups["md"] = {"obligations": mr["obligations"], "failures": mr["failures"]}
+    except Exception as e:  # noqa: BLE001
+        groups["md"] = {"obligations": [], "failures": ["translate_md: %r" % (e,)]}
     return {"groups": groups}
 
 
